@@ -25,6 +25,7 @@ RULE = (
     "was added to another pipeline, or both bracketings of a three-way sum."
 )
 RULE += (" " + 'Pipeline names are flat or path-like with equal basenames (the permutation sweep runs with both), and user pipelines may carry their own value_placeholders item.')
+RULE += (" File cases: 2-6 pipeline YAML files in prefix-related directories (conf, conf.d, conf-extra, conf/sub ...) with priority ties, named as directories, as single files and mixed, in several argument orders; the combined order must be (priority, path) for every way of naming.")
 ASSUMPTIONS = [
     "expected outputs are computed by string construction in the model, not by pySigma",
     "each conversion uses a fresh backend class (backend-level sharing is C15's subject)",
@@ -93,7 +94,70 @@ def _backend(pipeline):
     return cls(pipeline)
 
 
+def check_files_case(case: dict) -> Outcome:
+    """Pipelines stored as YAML files: the resolver is given files and directories (every file below a
+    directory spec counts as named by its path). Combined order = (priority, path), whatever the order
+    and the way (directory / single files) of naming."""
+    import os
+    import shutil
+    import tempfile
+    from sigma.exceptions import SigmaError
+    from sigma.processing.resolver import ProcessingPipelineResolver
+    from sigma.rule import SigmaRule
+    import yaml
+
+    out = Outcome()
+    out.label("files")
+    if not all(isinstance(r, str) and r.endswith(".yml") and "/" in r and isinstance(p, int) for r, p in case["files"]):
+        out.skipped = "not a pipeline file layout"
+        return out
+    tmp = tempfile.mkdtemp(prefix="vfc14.")
+    try:
+        entries = []  # (relative path, priority, tag)
+        for k, (rel, prio) in enumerate(case["files"]):
+            path = os.path.join(tmp, rel)
+            os.makedirs(os.path.dirname(path), exist_ok=True)
+            with open(path, "w") as f:
+                yaml.safe_dump({"name": f"n{k}", "priority": prio, "transformations": [{"type": "field_name_suffix", "suffix": f"_{k}"}]}, f)
+            entries.append((rel, prio, k))
+        results = {}
+        for specs in case["spec_lists"]:
+            named = []  # (priority, path string, tag) of everything the specs name
+            for sp in specs:
+                base = sp.rstrip("/")
+                hit = [e for e in entries if e[0] == base]
+                if hit:
+                    named.append((hit[0][1], os.path.join(tmp, base), hit[0][2]))
+                else:
+                    for rel, prio, k in entries:
+                        if rel.startswith(base + "/"):
+                            named.append((prio, os.path.join(tmp, rel), k))
+            want = "f" + "".join(f"_{k}" for _, _, k in sorted(named, key=lambda t: (t[0], t[1])))
+            for perm in case["perms"]:
+                order = list(dict.fromkeys(specs[i] for i in perm if isinstance(i, int) and 0 <= i < len(specs)))
+                order += [sp for sp in specs if sp not in order]
+                try:
+                    p = ProcessingPipelineResolver().resolve([os.path.join(tmp, sp) for sp in order])
+                    rule = SigmaRule.from_dict({"title": "t", "logsource": {"category": "c"}, "detection": {"sel": {"f": "x"}, "condition": "sel"}})
+                    p.apply(rule)
+                    got = rule.detection.detections["sel"].detection_items[0].field
+                except SigmaError as e:
+                    out.fail(f"C14:files:raised:{type(e).__name__}", f"specs {order}: {e}")
+                    return out
+                if got != want:
+                    out.fail("C14:files:order", f"files {case['files']} specs {order}: applied order {got}, expected {want} (by priority, path)")
+                    return out
+            results[tuple(sorted(specs))] = want
+        prios = [p for _, p in case["files"]]
+        out.nontrivial = len(set(prios)) < len(prios) and len({os.path.dirname(r) for r, _ in case["files"]}) >= 2
+    finally:
+        shutil.rmtree(tmp, ignore_errors=True)
+    return out
+
+
 def check_case(case: dict) -> Outcome:
+    if "files" in case:
+        return check_files_case(case)
     from sigma.collection import SigmaCollection
     from sigma.exceptions import SigmaError
     from sigma.processing.pipeline import ProcessingPipeline
@@ -275,6 +339,33 @@ def cases(draw, reuse: bool):
     return {"specs": specs, "ops": ops}
 
 
+DIRS = ["conf", "conf.d", "conf-extra", "conf/sub", "conf x", "z", "conf.d/a"]
+FILES = ["10-x.yml", "a.yml", "b.yml", "z.yml"]
+
+
+@st.composite
+def files_cases(draw):
+    rels = draw(st.lists(st.tuples(st.sampled_from(DIRS), st.sampled_from(FILES)).map("/".join), min_size=2, max_size=6, unique=True))
+    files = [[r, draw(st.sampled_from([10, 10, 10, 20, 5]))] for r in rels]
+    dirs = sorted({r.rsplit("/", 1)[0] for r in rels})
+    # ways of naming: all directories; all files one by one; a mixture
+    by_dir = [d + draw(st.sampled_from(["", "/"])) for d in dirs]
+    mixed = [draw(st.sampled_from([r, r.rsplit("/", 1)[0]])) for r in rels]
+    mixed = list(dict.fromkeys(mixed))
+    # a directory that contains another named directory would name the nested files twice: keep top-most only
+    def top(specs):
+        keep = []
+        for sp in specs:
+            b = sp.rstrip("/")
+            if not any(b != o.rstrip("/") and (b + "/").startswith(o.rstrip("/") + "/") for o in specs):
+                keep.append(sp)
+        return keep
+    spec_lists = [top(by_dir), list(rels) if not any(r.startswith(d + "/") and r.rsplit("/", 1)[0] != d for r in rels for d in dirs) else top(by_dir), top(mixed)]
+    n = max(len(x) for x in spec_lists)
+    perms = [list(range(n)), list(reversed(range(n))), list(draw(st.permutations(list(range(n)))))]
+    return {"files": files, "spec_lists": spec_lists, "perms": perms}
+
+
 def perm_cases(tier):
     """All permutations of the resolver's argument list for fixed spec sets with priority ties."""
     import itertools
@@ -299,3 +390,4 @@ def run(ctx) -> None:
     n = 500 if ctx.tier == "quick" else 6000
     ctx.hyp(cases(reuse=False), n, salt=1)
     ctx.hyp(cases(reuse=True), n // 2, salt=2)
+    ctx.hyp(files_cases(), n // 4, salt=3)
